@@ -117,6 +117,29 @@ Example C04_example :
   /\ msearch s2 [{| f_field := [110]; f_op := OGt; f_num := Some (-7); f_num2 := None; f_str := []; f_list := None |}] [] = Some [1; 2].
 Proof. vm_compute. split; reflexivity. Qed.
 
+(** Exists / NotExists on a categorical field (no document ever stored a number under it): exactly the
+    live documents that carry / lack some value whose key starts with "field:" — and with colon-free
+    field names (the property's quantifier) that prefix test singles out exactly the field *)
+From Comet Require Import Proofs.MetaExistsP.
+Theorem C04_exists_refines_document_store : forall ops field x,
+  let '(s, docs) := hrun ops in
+  num_find field (m_num s) = None ->
+  memz x (existence s field) = doc_has_prefix docs (field ++ [colon]) x /\
+  (forall r, eval_filter s {| f_field := field; f_op := ONotExists; f_num := None; f_num2 := None; f_str := []; f_list := None |} = Some r ->
+             memz x r = live docs x && negb (doc_has_prefix docs (field ++ [colon]) x)).
+Proof.
+  intros ops field x. pose proof (existence_categorical ops field x) as He. pose proof (inv_cat_run ops) as Hc.
+  destruct (hrun ops) as [s docs]. intros Hn. specialize (He Hn). split; [exact He|].
+  intros r Hr. unfold eval_filter in Hr. cbn [f_op f_field] in Hr. inversion Hr; subst r.
+  rewrite memz_set_diff, He. destruct Hc as [Ha _]. rewrite Ha. reflexivity.
+Qed.
+Print Assumptions C04_exists_refines_document_store.
+
+Theorem C04_field_prefix_is_field_name : forall f g r, colon_free f -> colon_free g ->
+  is_prefix (f ++ [colon]) (key_of g r) = str_eqb f g.
+Proof. exact prefix_key_colon_free. Qed.
+Print Assumptions C04_field_prefix_is_field_name.
+
 (** the refinement's history runner on a non-trivial history (add, add, remove, re-add) *)
 Example C04_refinement_history :
   let ops := [HAdd 1 [([110], MInt 5); ([99], MStr [97])]; HAdd 2 [([110], MInt (-5))]; HRemove 1; HAdd 1 [([110], MInt 7)]] in
